@@ -248,6 +248,38 @@ def check_raster_file(rep, spec, base):
         rep("ToImageStack.save_tif", "raster-file-roundtrip", spec, describe(b), describe(want))
 
 
+def check_raster_saved(rep, spec, base):
+    """ToImageStack(resolution).transform_and_save(file, tree), the property's file route: the file read back through read_imgs is the
+    rasterised (Z, X, Y) stack as an (X, Y, Z, 1) image stack.  A raster that is ONE slice thick is reported under its own clause."""
+    from swcgeom.images.io import read_imgs
+    from swcgeom.transforms.image_stack import ToImageStack
+
+    t = make_tree(spec["pid"], np.array(spec["xyz"], dtype=np.float32), np.array(spec["r"], dtype=np.float32))
+    tr = ToImageStack(spec["resolution"])
+    try:
+        want = np.asarray(tr(t))  # (Z, X, Y)
+    except Exception as e:
+        rep("ToImageStack.transform_and_save", "operation-raises", spec, f"{type(e).__name__}: {e}", "an image stack", variant=type(e).__name__)
+        return None
+    clause = "saved-raster-reads-back-as-(X,Y,Z,1)" + ("-one-slice" if want.shape[0] == 1 else "")
+    fname = os.path.join(base, "saved.tif")
+    if os.path.exists(fname):
+        os.remove(fname)
+    import logging
+
+    logging.getLogger("tifffile").setLevel(logging.CRITICAL)  # tifffile logs "shaped series axes do not match shape" for the one-page file
+    try:
+        tr.transform_and_save(fname, t, verbose=False)
+        b = np.asarray(read_imgs(fname, dtype=np.uint8).get_full())
+    except Exception as e:
+        rep("ToImageStack.transform_and_save", clause, spec, f"{type(e).__name__}: {e!r}", f"a stack of shape {want.transpose(1, 2, 0)[..., None].shape}", variant=type(e).__name__)
+        return want.shape[0]
+    w4 = want.transpose(1, 2, 0)[..., None]
+    if b.shape != w4.shape or not np.array_equal(b, w4):
+        rep("ToImageStack.transform_and_save", clause, spec, describe(b), describe(w4))
+    return want.shape[0]
+
+
 # ----------------------------------------------------------------------------- rasterisation
 def cone_g(p, a, b, ra, rb):
     """min over t in [0,1] of |p - (a + t (b - a))| - (ra + t (rb - ra)) for points p (N,3)."""
@@ -362,6 +394,16 @@ def raster_spec(pid, mode, radii, res, box, seed):
 
 
 # ----------------------------------------------------------------------------- driver
+def have_sdflit():
+    try:
+        import sdflit  # noqa: F401
+        from swcgeom.transforms.image_stack import ToImageStack  # noqa: F401
+
+        return True
+    except Exception:
+        return False
+
+
 def run(ctx):
     rep = Reporter(ctx)
     rng = random.Random(ctx.seed)
@@ -439,18 +481,25 @@ def run(ctx):
                 spec = dict(kind="raster-file", shape=list(shape), pattern=pattern, seed=k)
                 check_raster_file(rep, spec, base)
                 ctx.case("raster-file", dict(shape=list(shape), pattern=pattern), nontrivial=int(np.prod(shape)) > 1)
+        # the property's file route (observe_at: ToImageStack.transform_and_save, read_imgs): flat and tall trees at resolutions that give one, two
+        # and several z slices.  FINDING (docs/w3/c20.md, known_findings.jsonl): a raster that is ONE slice thick is written as a single page, which
+        # tifffile reports as a 2-D image 'YX' (the axes string ZXY is dropped); read_imgs refuses it (AssertionError)
+        if have_sdflit():
+            flat = dict(pid=[-1, 0, 1], xyz=[[0.0, 0.0, 0.0], [3.0, 1.0, 0.0], [6.0, 0.0, 0.0]], r=[1.0, 1.0, 1.0])
+            tall = dict(pid=[-1, 0, 0], xyz=[[0.0, 0.0, 0.0], [1.0, 0.5, 4.0], [2.0, 3.0, -2.5]], r=[0.8, 0.5, 1.2])
+            for tree in (flat, tall):
+                for res in (1, [1, 1, 2], 2, [0.5, 0.75, 1.25], [1, 2, 3]):
+                    k += 1
+                    spec = dict(kind="raster-saved", resolution=res, **tree)
+                    nz = check_raster_saved(rep, spec, base)
+                    ctx.case("raster-saved", dict(tree=tree["xyz"], res=res, slices=nz))
 
         # rasterisation
-        try:
-            import sdflit  # noqa: F401
-            from swcgeom.transforms.image_stack import ToImageStack  # noqa: F401
-
-            have_raster = True
-        except Exception as e:
-            have_raster = False
-            ctx.notes.append(f"rasterisation part skipped: importing sdflit / swcgeom.transforms.image_stack failed in this sandbox: {type(e).__name__}: {e}")
+        have_raster = have_sdflit()
+        if not have_raster:
+            ctx.notes.append("rasterisation part skipped: importing sdflit / swcgeom.transforms.image_stack failed in this sandbox")
         if have_raster:
-            resolutions = [1, 0.5] if quick else [1, 0.5, [1, 2, 0.5], 0.3]
+            resolutions = [1, 0.5, [1.5, 0.75, 3]] if quick else [1, 0.5, [1.5, 0.75, 3], [1, 2, 0.5], 0.3]
             tot = ins = 0
             for pid in all_sorted_tables_upto(4):
                 for mode in ("walk", "jitter", "lattice"):
@@ -479,7 +528,7 @@ def run(ctx):
         ctx.rule("TIFF round trips through real files: every shape (X,Y,Z,C) with X,Y,Z in {1,2,3,5}, C in {1,3} plus four 3-D shapes x dtype (uint8, uint16, float32) x pattern (ramp, random, "
                  "one-hot): same dtype exact, and the documented conversions (uint->float on read/save, float->uint on save/read with dtype given as class and as np.dtype, uint8->uint16); "
                  "NRRD/NPY written by pynrrd/numpy and read back through read_imgs; v3draw/v3dpbd written by v3dpy and read back as (X,Y,Z,C); read_images gray wrapper "
-                 "(shape, get_full, pixel and patch keys); frames saved page by page by ToImageStack.save_tif read back as (X,Y,Z,1); ToImageStack on every tree <= 4 nodes x coordinates (lattice walk, jittered, lattice with coincident "
+                 "(shape, get_full, pixel and patch keys); frames saved page by page by ToImageStack.save_tif read back as (X,Y,Z,1); transform_and_save of a flat and a tall tree at five resolutions (one, two, several z slices) read back through read_imgs; ToImageStack on every tree <= 4 nodes x coordinates (lattice walk, jittered, lattice with coincident "
                  "points) x radii (uniform, varied, big root enclosing its children, big tip enclosing its parent) x resolutions x (default box, explicit shifted box) plus random trees, every voxel centre compared with the round-cone "
                  "oracle. Non-trivial = stack with > 1 voxel / tree with >= 1 edge.", exhaustive=False)
     finally:
@@ -513,6 +562,8 @@ def replay(spec):
             check_gray(rep, spec, base)
         elif spec["kind"] == "raster-file":
             check_raster_file(rep, spec, base)
+        elif spec["kind"] == "raster-saved":
+            check_raster_saved(rep, spec, base)
     finally:
         shutil.rmtree(base, ignore_errors=True)
     for v in c.v:
